@@ -429,6 +429,16 @@ def ls_call(c):
     wts = _weights(c, signed=True)
     dt = c.time('dt')
     G = _sum(c, wts, ABS)
+    if c.mode == 'conc' and G > 0:
+        # weights normalised by hand from rounded figures: gross exposure a few parts per million off the leverage (not equal to
+        # it), low-priced assets - rescaling is still due, and a shortcut 'already at the target' over-allocates by E*L*ppm
+        ppm = c.real('weights_rescaled_to_ppm_off_the_leverage', lambda r: r.choice([0, 0, 0, 3, -6, 8, 9]))
+        if ppm:
+            f = L * (1 + ppm * 1e-6) / G
+            wts = {k: v * f for k, v in wts.items()}
+            G = _sum(c, wts, ABS)
+            for k in wts:
+                c.ceval(PRICEF(c.tterm(dt), c.keyterm(k)), lambda r: r.choice([0.25, 0.5, 1.0, 1.25]))
     if c.mode == 'sym':
         add_universal(lambda k: z3.Implies(z3.Select(DOM(wts), k), z3.And(z3.Not(PNANF(lift(dt), k)), PRICEF(lift(dt), k) > 0)))
     if r > 1:
